@@ -32,7 +32,7 @@ for p in patches:
         if pr.returncode == 1:
             alarms[c] = [l for l in o.splitlines() if l.startswith('  rule')][:4]
         elif pr.returncode != 0:
-            broken[c] = [l for l in o.splitlines() if 'CHECK-BROKEN' in l][:2]
+            broken[c] = o.splitlines()[-14:]
     if os.environ.get('CHECKS') and name in res:
         res[name]['alarms'].update(alarms); res[name]['broken'].update(broken)
         for c in checks:
